@@ -130,6 +130,11 @@ func scenarios() []scenario {
 			{{Kind: "tohtml", Name: "q", Data: 0}},
 			{{Kind: "exec", Name: "q", Data: 2}},
 		}},
+		{"S12-templates-after-execution", baseDefs, [][]call{
+			{{Kind: "exec", Name: "a", Data: 0}, {Kind: "templates"}},
+			{{Kind: "templates"}, {Kind: "templates"}},
+			{{Kind: "exec", Name: "b", Data: 0}, {Kind: "templates"}, {Kind: "lookup", Name: "h"}},
+		}},
 		{"S7-execute-same-root-first-and-repeated", baseDefs, [][]call{
 			{{Kind: "execroot", Data: 0}},
 			{{Kind: "execroot", Data: 1}, {Kind: "execroot", Data: 0}},
@@ -212,11 +217,13 @@ func doCall(t *template.Template, c call) (res string) {
 		}
 		return "found"
 	case "templates":
+		// the slice belongs to the caller: sort it in place, as callers that want a stable order do
+		ts := t.Templates()
+		sort.Slice(ts, func(i, j int) bool { return ts[i].Name() < ts[j].Name() })
 		var names []string
-		for _, x := range t.Templates() {
+		for _, x := range ts {
 			names = append(names, x.Name())
 		}
-		sort.Strings(names)
 		return strings.Join(names, ",")
 	case "name":
 		return t.Name()
